@@ -211,6 +211,7 @@ func rulePutConfigIdentity(c *Ctx) {
 
 func init() {
 	register("C20", "A cluster is bootstrapped exactly once and keeps one identity", func(c *Ctx) {
+		c.Group("C20/key-format", "(shared with C17) what the bootstrap transaction writes is what the storage layer reads: store and region keys use the same zero-padded id format", func() { ruleKeyFormats(c) })
 		c.Group("C20/bootstrap-txn", "the four bootstrap writes are the Then of one transaction guarded by CreateRevision(clusterRoot)==0; start/response/storage only after it was applied; payload validated first and taken from the request", func() { ruleBootstrapTxn(c) })
 		c.Group("C20/cluster-id", "cluster id: create-if-absent put with Else(Get); generated id returned only if applied; no other writer; assigned once at start", func() { ruleClusterID(c); rulePutConfigIdentity(c) })
 		c.Group("C20/not-leader-refused", "(shared with C03) requests carrying another cluster id are refused (validateRequest, Tso, Sync)", func() { ruleHandlersValidate(c) })
